@@ -107,6 +107,25 @@ def _scenario_worker(arg):
             fails, stats = res.get("fails", []), {"checks": res.get("checks", 0)}
         else:
             fails, stats = res, {"checks": 0}
+        # a HISTORY: the scenario named by "then" is run afterwards in the same process on the same paths - every directory the
+        # first one made is removed and written again with other contents (what re-running a tool into an existing location, or
+        # re-using a path for another plotfile, looks like); plain files left beside them (a pickle, an .npz) stay.  What an
+        # operation yields depends on what is on disk when it runs, not on what the process did before.
+        nxt = params.get("then")
+        while nxt:
+            # ("in_place": nothing is removed - the second plotfile is written over the first one, file by file, the way a tool
+            # re-run into its existing output directory does; the directories, and their modification times, stay)
+            for ent in ([] if nxt.get("in_place") else os.listdir(wd)):
+                pth = os.path.join(wd, ent)
+                if os.path.isdir(pth) and not os.path.islink(pth):
+                    shutil.rmtree(pth, ignore_errors=True)
+            res2 = mod.run_scenario(nxt, wd)
+            f2 = res2.get("fails", []) if isinstance(res2, dict) else res2
+            for f_ in f2:
+                f_["call"] = str(f_.get("call", "")) + "  [second use of the same paths in one process]"
+            fails = list(fails) + list(f2)
+            stats["checks"] += res2.get("checks", 0) if isinstance(res2, dict) else 0
+            nxt = nxt.get("then")
         return {"params": params, "fails": fails, "error": None, "s": time.time() - t0, "stats": stats}
     except Timeout:
         return {"params": params, "fails": [], "error": f"timeout after {timeout}s", "s": time.time() - t0}
